@@ -295,6 +295,12 @@ Section Histories.
 Variable h : list N -> N.
 Variable dom : list N -> Prop.
 Hypothesis h_inj : forall v w, dom v -> dom w -> h v = h w -> v = w.
+(* a class of operations known to leave the symbol table alone: [sym_neutral]
+   above, all operations but parse_add_symbol in Proofs/C15/SymbolNamesAll.v *)
+Variable neutral : op -> bool.
+Hypothesis neutral_keeps : forall o s s' r, G s -> neutral o = true -> bstep o s = Ok (s', r) ->
+  window s' BSym = window s BSym.
+Hypothesis neutral_sym : forall sym bl name, neutral (OSymbol sym bl name) = false.
 
 (* a history over the vocabulary covered here: every parse_add_symbol
    registers a name of the domain under its hash with the length of the
@@ -302,7 +308,7 @@ Hypothesis h_inj : forall v w, dom v -> dom w -> h v = h w -> v = w.
    for which str::len() is the number of chars), every other operation is
    one that does not go near the symbol table *)
 Definition sym_op_ok (o : op) : Prop :=
-  sym_neutral o = true \/ exists name, dom name /\ o = OSymbol (h name) (length name) name.
+  neutral o = true \/ exists name, dom name /\ o = OSymbol (h name) (length name) name.
 
 Definition registers (ops : list op) (name : list N) : Prop := In (OSymbol (h name) (length name) name) ops.
 
@@ -322,10 +328,10 @@ Proof.
   intros o s s' r Gs [Hs He] Hok H.
   destruct (bstep_ok o s Gs) as (s2 & r2 & H2 & G2 & S2). rewrite H in H2. inversion H2; subst s2 r2. clear H2.
   split; [exact G2|]. destruct Hok as [Hn|(name & Hd & ->)].
-  - pose proof (neutral_window o s s' r Gs Hn H) as Hw. rewrite Hw.
+  - pose proof (neutral_keeps o s s' r Gs Hn H) as Hw. rewrite Hw.
     split; [|split; [auto|split; [auto|]]].
     + constructor; [rewrite Hw; exact Hs|]. intros c Hc. rewrite Hw in Hc. eapply entry_stable; [exact S2|apply He; exact Hc].
-    + intros name ->. discriminate Hn.
+    + intros name ->. rewrite neutral_sym in Hn. discriminate Hn.
   - cbn [bstep] in H.
     destruct (parse_add_symbol_effect (h name) (length name) name s Gs) as (s4 & H4 & Hw & Hdat).
     pose proof (lift_inv _ _ _ _ _ _ _ _ H4 H) as E. subst s4.
@@ -348,7 +354,7 @@ Qed.
 
 Lemma registers_dom : forall ops name, Forall sym_op_ok ops -> registers ops name -> dom name.
 Proof.
-  intros ops name Hall Hr. rewrite Forall_forall in Hall. destruct (Hall _ Hr) as [Hn|(name' & Hd & E)]; [discriminate Hn|].
+  intros ops name Hall Hr. rewrite Forall_forall in Hall. destruct (Hall _ Hr) as [Hn|(name' & Hd & E)]; [rewrite neutral_sym in Hn; discriminate Hn|].
   assert (name = name') by (injection E; auto). subst name'. exact Hd.
 Qed.
 
